@@ -54,6 +54,12 @@ where
     ) -> Result<()> {
         self.validate_commit_authorization(mls_group, &staged_commit, commit_sender)?;
         self.validate_commit_identities(mls_group, &staged_commit, commit_sender)?;
+        // The group data the commit would leave behind must be readable before anything is
+        // applied: once the commit is merged a malformed extension can only make the metadata
+        // sync fail, with the MLS state already one epoch ahead of the stored group record.
+        crate::extension::NostrGroupDataExtension::from_group_context(
+            staged_commit.group_context(),
+        )?;
 
         let group_id: GroupId = mls_group.group_id().into();
 
